@@ -825,6 +825,7 @@ class Rewriter:
         b = self.sub('R22:slice-eq', r'\bself\[\.\.\] == other\[\.\.\]', 'slice_eq(hs, self.deref(hs), other.deref(hs))', b)
         b = self.sub('R22:slice-hash', r'\bHash::hash\(&\*\*self, (\w+)\)', r'slice_hash(hs, self.as_slice(), \1, hl)', b)
         b = self.sub('R22:slice-cloned-iter', r'\bself\.iter\(\)\.cloned\(\)', 'slice_cloned_iter(hs, self.as_slice())', b)
+        b = self.sub('R22:full-range-index', r'(?m)^(\s*)&(?:mut )?self\[\.\.\]\s*$', r'\1slice_index_full(hs, self.deref(hs))', b)
         b = self.sub('R22:model-type', r'(?<![\w:])Vec::new_in\(', 'VecM::new_in(hs, ', b)
         b = self.sub('R22:model-type', r'(?<![\w:])Vec::from_iter_in\(', 'VecM::from_iter_in(hs, ', b)
         b = self.sub('R22:model-type', r'(?<![\w:])RawVec::new_in\(', 'RawVecM::new_in(hs, ', b)
@@ -886,6 +887,9 @@ class Rewriter:
         b = self.sub('R25:str-index', r'&(?:mut )?self\[\.\.\]\[index\]', 'str_index(hs, self.deref(hs), index)', b)
         b = self.sub('R25:str-index', r'\b(?:Index::index|IndexMut::index_mut)\(&(?:mut )?\*\*self, index\)', 'str_index(hs, self.deref(hs), index)', b)
         b = self.sub('R25:str-from-utf8', r'(?<![\w:])str::from_utf8_unchecked_mut\(&mut \*self\.vec\)', 'str_from_utf8_unchecked(hs, &self.vec)', b)
+        # `&self[..]` / `&mut self[..]` as the whole body: by definition the call of Index<RangeFull>::index / IndexMut::index_mut (both under contract)
+        b = self.sub('R25:full-range-index', r'(?m)^(\s*)&self\[\.\.\]\s*$', r'\1self.index_full(hs)', b)
+        b = self.sub('R25:full-range-index', r'(?m)^(\s*)&mut self\[\.\.\]\s*$', r'\1self.index_mut_full(hs)', b)
         b = self.sub('R25:bytes-of-vec', r'(?m)^(\s*)&self\.vec\s*$', r'\1self.vec.deref(hs)', b)
         b = self.sub('R25:err-bytes', r'(?m)^(\s*)self\.bytes\s*$', r'\1e.bytes', b)
         b = self.sub('R25:owned-item', r'\bself\.push_str\(&s\)', 'self.push_str(s)', b)
